@@ -581,6 +581,27 @@ REGISTRY.update({
                       "against an oracle (fault enumeration), not by a theorem"],
         explanation="iterator under arbitrary allocation-failure schedules refines a cursor that may refuse a call without "
                     "moving (proof); every allocation point of every workload enumerated (tie)"),
+    "C12": Prop(
+        targets=["PsProps.C12"],
+        theorems=[("PsProps.C12", "Ps.Props.C12_primePi_lookups"), ("PsProps.C12", "Ps.Props.C12_small_prime_copy"),
+                  ("PsProps.C12", "Ps.Props.C12_next_buffer_slack"), ("PsProps.C12", "Ps.Props.C12_fill_default_in_bounds"),
+                  ("PsProps.C12", "Ps.Props.C12_fill_avx512_in_bounds"), ("PsProps.C12", "Ps.Props.C12_fill_prev_in_bounds"),
+                  ("PsProps.C12", "Ps.Props.C12_decode_tables"), ("PsProps.C12", "Ps.Props.C12_constants"),
+                  ("PsProps.C12", "Ps.Props.C12_signed"), ("PsProps.C12", "Ps.Props.C12_assert_ledger"),
+                  ("PsProps.C12", "Ps.Props.C12_fill_source")],
+        tie=combine(("iter", iter_tie), ("iterc", streams.ITERC.tie), ("store", streams.STORE.tie), ("print", streams.PRINT.tie),
+                    ("count", count_tie), ("calc", streams.CALC.tie), ("cli", cli_tie)),
+        witness=combine_witness(iter_witness, streams.ITERC.witness, streams.STORE.witness, count_witness, cli_witness),
+        assumptions=ITER_ASSUME + SAN_ASSUME + [
+            "the fill-loop model records only WHICH slots are written (indices), for arbitrary popcounts per 64-bit word; "
+            "the guards and initNextPrimes it was written from are locked to the source text (C12_fill_source)"],
+        undischarged=["81 of the 90 ASSERT sites are 'runtime' in the ledger: not modelled, checked by the ENABLE_ASSERT build on "
+                      "every stream run", "use-after-free, double free, uninitialised reads, misalignment, leaks of the real "
+                      "allocator: not expressible in the model; covered as a side effect of every correspondence stream running "
+                      "under AddressSanitizer + UBSan (an abort is a violation with the failing operation as replay)",
+                      "cross-off index arithmetic of EratSmall/EratMedium/EratBig and MemoryPool pointer arithmetic (sieve chain)"],
+        explanation="buffer and table index arithmetic of PrimeGenerator proved in bounds for all inputs / estimates / popcounts; "
+                    "signed-arithmetic side conditions; regenerated ledger of all 90 ASSERT sites; sanitizer sweep as tie"),
     "C16": Prop(
         targets=["PsProps.C16"],
         theorems=[("PsProps.C16", "Ps.Props.C16_calc_exact_or_rejected"), ("PsProps.C16", "Ps.Props.C16_checked_arith"),
